@@ -8,6 +8,7 @@ import Model.RunLoop
 import Proofs.RunLoop
 import Model.Matcher
 import Proofs.Matcher
+import Proofs.Funcs
 
 namespace Props.C01
 open Model.Scan Model.Run Proofs.Run
@@ -48,5 +49,46 @@ theorem c01_toplevel (env : Model.Interp.Env) (prog : List Model.Interp.Node) (v
   unfold Model.Interp.matchLine
   rw [Proofs.Matcher.matchExprs_clean env prog v (!env.dm) none hc]
   cases env.dm <;> simp
+
+/-! ### the documented meaning of the comparison and boolean functions, on the model
+
+For integers the `above` family is `>`/`>=` as documented. The `lt` family answers `<=`: that is the
+known finding `lt-is-le` (the code computes `<`, drops it and returns `<=`); the theorem states
+what the model — and, by the correspondence suite, the code — does, so the finding is on record in
+the proofs as well. -/
+theorem c01_compare_ints (s : Model.Interp.ES) (a b : Int) :
+    Model.Interp.aboveBelow "above" (.int a) (.int b) s = (decide (a > b), s) ∧
+    Model.Interp.aboveBelow "gt" (.int a) (.int b) s = (decide (a > b), s) ∧
+    Model.Interp.aboveBelow "after" (.int a) (.int b) s = (decide (a > b), s) ∧
+    Model.Interp.aboveBelow "gte" (.int a) (.int b) s = (decide (a ≥ b), s) ∧
+    Model.Interp.aboveBelow "lte" (.int a) (.int b) s = (decide (a ≤ b), s) ∧
+    Model.Interp.aboveBelow "lt" (.int a) (.int b) s = (decide (a ≤ b), s) ∧
+    Model.Interp.aboveBelow "below" (.int a) (.int b) s = (decide (a ≤ b), s) ∧
+    Model.Interp.aboveBelow "before" (.int a) (.int b) s = (decide (a ≤ b), s) :=
+  Proofs.Funcs.cmp_ints s a b
+
+/-- `not(x)` holds exactly when `x` does not -/
+theorem c01_not (fuel : Nat) (env : Model.Interp.Env) (id : Nat) (q : List String) (a : Model.Interp.Node)
+    (s : Model.Interp.ES) :
+    Model.Interp.decideFn (fuel + 1) env id "not" q [a] s =
+      (some (!((Model.Interp.evalM fuel env a s).1 == some true)), (Model.Interp.evalM fuel env a s).2) :=
+  Proofs.Funcs.fn_not fuel env id q a s
+
+/-- `and(x, y)`: `y` is evaluated (in the state `x` leaves) only when `x` holds; the answer is `y`'s then, `x`'s otherwise -/
+theorem c01_and (fuel : Nat) (env : Model.Interp.Env) (id : Nat) (q : List String) (a b : Model.Interp.Node)
+    (s : Model.Interp.ES) :
+    (Model.Interp.decideFn (fuel + 1) env id "and" q [a, b] s).1 =
+      (if (Model.Interp.evalM fuel env a s).1 == some true
+       then (Model.Interp.evalM fuel env b (Model.Interp.evalM fuel env a s).2).1
+       else (Model.Interp.evalM fuel env a s).1) :=
+  Proofs.Funcs.fn_and fuel env id q a b s
+
+/-- `or(x, y)` holds exactly when one of them does -/
+theorem c01_or (fuel : Nat) (env : Model.Interp.Env) (id : Nat) (q : List String) (a b : Model.Interp.Node)
+    (s : Model.Interp.ES) :
+    (Model.Interp.decideFn (fuel + 1) env id "or" q [a, b] s).1 =
+      some ((Model.Interp.evalM fuel env a s).1 == some true ||
+            (Model.Interp.evalM fuel env b (Model.Interp.evalM fuel env a s).2).1 == some true) :=
+  Proofs.Funcs.fn_or fuel env id q a b s
 
 end Props.C01
